@@ -238,6 +238,93 @@ def macro_slice(prop, tier, seed, out):
     return agg
 
 
+def c14_macro_slice(tier, seed, out):
+    """C14 on real crates (attribute macros, one shared argument list per generic benchmark): under each ignore mode the terse
+    listing invokes nothing and names, as a multiset, exactly the cases a `--test` run with the same flags really executes - "really"
+    meaning the (function, type, constant, argument) each body reports having been called with, not the label printed next to it -
+    and a listed path fed back as the only --exact filter executes that case and no other."""
+    from . import treejudge as TJ2
+    programs, d, target, rc, log, rng = prepare(tier, seed)
+    st = {"programs": 0, "listings_compared": 0, "listed_cases": 0, "roundtrips": 0}
+    if rc != 0:
+        out.inconclusive_shard("generated crate failed to build: %s" % log[-800:].replace("\n", " | "))
+        return st
+    rng = random.Random(seed * 77 + 14)
+    for P in programs:
+        exe = os.path.join(target, "debug", P.crate)
+        roots = TG.build_tree(P.spec)
+        keymap = {}
+        for c in TG.cases(roots):
+            keymap.setdefault((c.leaf.bench.bid, c.arg[1] if c.arg else None, c.leaf.ty, c.leaf.const), []).append(c.path())
+        ambiguous = {k for k, v in keymap.items() if len(set(v)) > 1}
+        # a case whose effective budget is zero (sample_count / sample_size / max_time of 0) is listed but makes no call: not judged
+        zero_budget = set()
+        for c in TG.cases(roots):
+            eff = TG.effective_options(c, {})
+            if eff.get("sc") == 0 or eff.get("ss") == 0 or eff.get("xt") == 0:
+                zero_budget.add(c.path())
+        st["programs"] += 1
+        payload = {"engine": "generated-crate", "program": P.crate, "source": P.source[-12000:]}
+
+        def executed_paths(so):
+            tail = so.split(tree_parse.MARK_LOG, 1)[1] if tree_parse.MARK_LOG in so else ""
+            lines = [l for l in tail.split("\n") if l and l != tree_parse.MARK_END and not l.startswith("status")]
+            lg = TJ2.parse_log(lines)
+            paths, unknown = [], []
+            for r in lg["runs"]:
+                k = (r["bid"], r["arg"], r["ty"], r["const"])
+                if k in keymap and k not in ambiguous:
+                    paths.append(keymap[k][0])
+                else:
+                    unknown.append(k)
+            return lg, paths, unknown
+
+        first_listed = None
+        for mode, flags in (("include", ["--include-ignored"]), ("no", []), ("only", ["--ignored"])):
+            # (one thread count for every benchmark, on both sides: a case is then called exactly once by a run)
+            flags = flags + ["--threads", "1"]
+            rc1, so1, se1 = run_bin(exe, ["--list", "--format", "terse"] + flags, {"NEXTEST": "1"})
+            rc2, so2, se2 = run_bin(exe, ["--test"] + flags)
+            out.evaluations += 2
+            if rc1 != 0 or rc2 != 0:
+                out.inconclusive_shard("generated program exited %s / %s under %s" % (rc1, rc2, flags))
+                continue
+            lg1, _, _ = executed_paths(so1)
+            if lg1["runs"] or lg1["enters"]:
+                out.violation("C14:terse_invoked", "[generated crate %s] terse listing invoked %d benchmark bodies" % (P.crate, len(lg1["enters"])), dict(payload, cli=flags))
+            listed = sorted(l[:-len(": benchmark")] for l in so1.split(tree_parse.MARK_LOG)[0].split("\n") if l.endswith(": benchmark"))
+            lg2, ran, unknown = executed_paths(so2)
+            if unknown:
+                out.inconclusive_shard("generated program: %d executed cases could not be mapped to a path" % len(unknown))
+                continue
+            st["listings_compared"] += 1
+            st["listed_cases"] += len(listed)
+            if mode == "include":
+                first_listed = listed
+            from collections import Counter
+            cl, cr = Counter(p for p in listed if p not in zero_budget), Counter(p for p in ran if p not in zero_budget)
+            if cl != cr:
+                out.violation("C14:terse_differs_from_real_calls:macro_path",
+                              "[generated crate %s, %s] the terse listing names %d cases, `--test` with the same flags really called %d: listed but not called %s, called but not listed / called again %s" % (
+                                  P.crate, " ".join(flags) or "default", len(listed), len(ran), sorted((cl - cr).elements())[:4], sorted((cr - cl).elements())[:4]),
+                              dict(payload, cli=flags, stdout=so2[-3000:]))
+        # round trip on a few listed paths (unique ones)
+        if first_listed:
+            uniq = [p for p in first_listed if first_listed.count(p) == 1 and p not in zero_budget]
+            for path in rng.sample(uniq, min(len(uniq), 4 if tier == "quick" else 24)):
+                rc3, so3, se3 = run_bin(exe, ["--test", "--include-ignored", "--threads", "1", "--exact", path])
+                out.evaluations += 1
+                if rc3 != 0:
+                    out.inconclusive_shard("round trip exited %s" % rc3)
+                    continue
+                _, ran, unknown = executed_paths(so3)
+                st["roundtrips"] += 1
+                if unknown or ran != [path]:
+                    out.violation("C14:roundtrip_runs_other_case:macro_path", "[generated crate %s] --exact %r (a listed path) really called %s" % (P.crate, path, (ran + [str(u) for u in unknown])[:4]),
+                                  dict(payload, cli=["--exact", path], stdout=so3[-3000:]))
+    return st
+
+
 def check(prop, tier, seed, out):
     programs, d, target, rc, log, rng = prepare(tier, seed)
     nprog = len(programs)
